@@ -27,7 +27,7 @@ D = decimal.Decimal
 TMP = '/tmp/C12'
 
 # fixed-point scales (decimal digits): units/amount numbers, per-unit cost numbers, rates
-A_SC, B_SC, C_SC = 8, 6, 8
+A_SC, B_SC, C_SC = 12, 6, 8
 
 ASSUMPTIONS = [
     'beancount.core.inventory.Inventory, beancount.core.convert and the price map (prices.get_price) are Beancount code: '
@@ -544,13 +544,48 @@ def prepare(case):
                     f'o_query {wm} [TBalance; TFlagAndEmpty] {clist(scanned)}]')
             add(kind, q, [[bool(row[0])] + [canon_inv(v) for v in row[1:]] for row in r], expr,
                 ['andempty', A_SC], sel=sel[0], alone=alone)
-    body = 'OL ' + clist(exprs)
-    coq = '\n'.join(lets) + '\n' + body
+        elif kind == 'journal':
+            # JOURNAL is sugar for SELECT date, flag, ..., account, f(position), f(balance) WHERE account ~ pattern
+            pat = ['Broker', 'Bank', 'Assets', 'Expenses|Income', ''][item[3] % 5]
+            summ, tl, sc = [(None, 'TBalance', A_SC), ('units', 'TUnitsBal', A_SC),
+                            ('cost', f'(TCostBal {10 ** B_SC})', A_SC + B_SC)][item[2] % 3]
+            q = 'JOURNAL' + (f" '{pat}'" if pat else '') + (f' AT {summ}' if summ else '')
+            r = execute(q)
+            scanned = [f'({n}, ({cbool(re.search(pat, p.account) is not None)}, false))'
+                       for n, (e, p) in zip(names, rows)]
+            wm = '(Some WMask)' if pat else 'None'
+            add('balance', q, [[canon_inv(row[-1])] for row in r], f'o_query {wm} [{tl}] {clist(scanned)}',
+                ['rows', [sc]], sel='journal', refs=1, wshape=None)
+        elif kind == 'balances':
+            summ = [None, 'units', 'cost'][item[2] % 3]
+            q = 'BALANCES' + (f' AT {summ}' if summ else '') + (f' FROM {sel[1]}' if sel[1] else '') \
+                + (f' WHERE {sel[2]}' if sel[2] else '')
+            r = execute(q)
+            selrows = [(n, p.account) for n, (e, p) in zip(names, rows) if sel[3](e, p)]
+            accounts = sorted({a for _, a in selrows})
+            one = 10 ** B_SC
+            fn, sc = {None: ('sum_pos {g}', A_SC), 'units': ('sum_amt (map get_units {g})', A_SC),
+                      'cost': (f'sum_amt (map (get_cost {one}) {{g}})', A_SC + B_SC)}[summ]
+            gl = [clist([n for n, a in selrows if a == acc]) for acc in accounts]
+            add(kind, q, sorted([[row[0], canon_inv(row[1])] for row in r]),
+                'OL ' + clist(['o_inv (' + fn.format(g=g) + ')' for g in gl]), ['balances', sc], sel=sel[0],
+                accounts=accounts)
+    # one Eval per heavy (per-row) check, the aggregates of a ledger together: keeps the printed
+    # S-expressions small (Out.show is not tail recursive)
+    chunks, light = [], []
+    for i, chk in enumerate(checks):
+        if chk['kind'] in ('balance', 'lastbal', 'firstbal', 'andempty'):
+            chunks.append([i])
+        else:
+            light.append(i)
+    if light:
+        chunks.append(light)
+    coq = ['\n'.join(lets) + '\nOL ' + clist([exprs[i] for i in ch]) for ch in chunks]
     info = {'postings': len(rows), 'errors': len(errors), 'currencies': len(ledger_curs),
             'lots': len({(p.units.currency, p.cost) for _, p in rows if p.cost is not None}),
             'reductions': sum(1 for _, p in rows if p.cost is not None and p.units.number < 0),
             'prices': sum(len(v) for v in price_map.values()) // 2}
-    return {'checks': checks, 'coq': coq, 'info': info, 'cur': cur.names, 'lab': lab.names}
+    return {'checks': checks, 'coq': coq, 'chunks': chunks, 'info': info, 'cur': cur.names, 'lab': lab.names}
 
 
 def sels_from(sel, e, p):
@@ -582,7 +617,7 @@ def gen_plan(rng, tier):
     nsel = 12
     k = 11 if tier == 'quick' else 20
     kinds = ['sum', 'units', 'cost', 'value', 'convert', 'convert', 'group', 'balance', 'balance', 'balance', 'balance',
-             'lastbal', 'firstbal', 'andempty', 'sumprice']
+             'lastbal', 'firstbal', 'andempty', 'sumprice', 'journal', 'balances']
     for _ in range(k):
         kind = rng.choice(kinds)
         s = rng.randrange(nsel) if rng.random() < 0.75 else 0
@@ -646,6 +681,10 @@ def compare(check, mx, cur, lab):
                 if tot == 'no-row' or as_map(im[-1][i]) != as_map(tot):
                     probs.append(('last-balance-conservation',
                                   f'last balance {im[-1][i]} != sum(position) of the same selection {tot}'))
+    elif dec[0] == 'balances':
+        m = [[a, decode_inv(x, dec[1], cur, lab)] for a, x in zip(check['accounts'], mx)]
+        if im != m:
+            probs.append(('balances', f'BALANCES rows {im} != model {m}'))
     elif dec[0] == 'lastbal':
         mrows = [decode_inv(r[0][1], dec[1], cur, lab) for r in mx]
         exp = {}
@@ -768,6 +807,11 @@ IMPORTS = ['Model.Inventory', 'Model.Balance']
 
 def coq_eval(tag, exprs, shard):
     """core.coq_eval, retried once: under heavy machine load a coqc process is occasionally killed."""
+    import resource
+    soft, hard = resource.getrlimit(resource.RLIMIT_STACK)
+    want = 1 << 30
+    if soft != resource.RLIM_INFINITY and soft < want and (hard == resource.RLIM_INFINITY or hard >= want):
+        resource.setrlimit(resource.RLIMIT_STACK, (want, hard))   # inherited by coqc: long outputs recurse deeply
     try:
         return core.coq_eval(tag, IMPORTS, exprs, shard=shard)
     except RuntimeError as e:
@@ -792,16 +836,24 @@ def make_cases(rng, n, tier, subdir='ledgers'):
 
 def evaluate(cases, tag):
     """Run implementation + model for ledger cases; returns list of (case, prep, problems)."""
+    import time
+    t0 = time.time()
     preps = core.pmap(prepare_safe, cases)
+    t1 = time.time()
     ok = [(c, p) for c, p in zip(cases, preps) if 'error' not in p]
-    outs = coq_eval(tag, [p['coq'] for _, p in ok], 20)
+    outs = coq_eval(tag, [e for _, p in ok for e in p['coq']], 60)
+    if len(cases) > 8:
+        core.log(f'[C12] {len(cases)} ledgers: implementation {t1 - t0:.1f}s, model (vm_compute) {time.time() - t1:.1f}s')
     res = []
     it = iter(outs)
     for c, p in zip(cases, preps):
         if 'error' in p:
             res.append((c, p, [('harness-error', p['error'], None)]))
             continue
-        mx = next(it)
+        mx = [None] * len(p['checks'])
+        for ch in p['chunks']:
+            for i, m in zip(ch, next(it)):
+                mx[i] = m
         cur, lab = Interner(), Interner()
         for s in p['cur']:
             cur(s)
@@ -845,7 +897,7 @@ def shrink_case(case, kind, chk_sql):
 
 
 def run(tier, rng):
-    n = int(os.environ.get('C12_N', 0)) or (160 if tier == 'quick' else 2500)
+    n = int(os.environ.get('C12_N', 0)) or (140 if tier == 'quick' else 1500)
     os.makedirs(TMP, exist_ok=True)
     cases = make_cases(rng, n, tier)
     results = evaluate(cases, 'c12')
@@ -958,7 +1010,8 @@ def run(tier, rng):
                 'sum over the group inventories via a FROM-subquery; SELECT balance with 1-3 references, units()/cost() of it, '
                 'subqueries scanning postings with balance between two references, the same as FROM-subquery, WHERE not '
                 'consulting balance (12 selections incl. FROM filters) and 8 WHERE shapes consulting it (short-circuit AND/OR/NOT); '
-                'last(balance)/first(balance) GROUP BY account; `flag AND empty(balance)`; 1 in 4 ledgers alternate two connections; '
+                'last(balance)/first(balance) GROUP BY account; `flag AND empty(balance)`; JOURNAL [pattern] [AT units|cost] and '
+                'BALANCES [AT units|cost] [FROM] [WHERE]; 1 in 4 ledgers alternate two connections; '
                 'plus random add_position/add_inventory sequences on beancount Inventory directly. '
                 'non-trivial = distinct (query, ledger) with >= 2 postings',
         'samples': samples,
